@@ -503,6 +503,55 @@ func c13(x *Ctx) {
 			}
 		})
 		c.Decide(ranges, r, "updatePeerCounts/all-entries", x.PosOf(up.Pos()), "every registry entry is visited", "updatePeerCounts does not range over the whole registry")
+		// … on every call: samplers are thrown away and re-created on reload (and created lazily per dataset), so a
+		// recomputation that is skipped because "nothing changed since last time" leaves the new instances with the
+		// undivided goal
+		var rng ssa.Instruction
+		eng.Instrs(up, func(in ssa.Instruction) {
+			if rg, ok := in.(*ssa.Range); ok && rng == nil && loadsField(rg.X, eng.FieldIs("sample", "SamplerFactory", "sharedDynsamplers")) {
+				rng = in
+			}
+		})
+		if rng != nil {
+			c.Examined++
+			rr := eng.Explore(eng.Query{Fn: up, Classify: func(in ssa.Instruction, _ eng.Facts) eng.Event {
+				if in == rng {
+					return eng.EvKill
+				}
+				return eng.EvNone
+			}})
+			var skip ssa.Instruction
+			for _, e := range rr.Exits {
+				if _, isRet := e.Instr.(*ssa.Return); isRet {
+					skip = e.Instr
+				}
+			}
+			if skip != nil {
+				c.Violate(r, "updatePeerCounts/always-recomputed", x.Pos(skip), "updatePeerCounts can return without visiting the registry: samplers created since the last recomputation (after a reload, or lazily for a new dataset) keep the undivided cluster-wide goal")
+			} else {
+				c.Hold(r, "updatePeerCounts/always-recomputed", x.Pos(rng), "every call walks the registry")
+			}
+		}
+		// the membership is read inside the critical section that stores it: with the read outside, two overlapping
+		// notifications can store their snapshots in the opposite order and the older cluster size wins
+		mtx := func(fr eng.FieldRef) bool {
+			if fr.Struct == nil || fr.Struct.Obj().Name() != "SamplerFactory" || fr.Var == nil {
+				return false
+			}
+			t := fr.Var.Type().String()
+			return t == "sync.Mutex" || t == "sync.RWMutex"
+		}
+		var getPeers []ssa.Instruction
+		eng.Instrs(up, func(in ssa.Instruction) {
+			if cl, ok := in.(ssa.CallInstruction); ok && strings.HasSuffix(eng.CalleeName(cl), ".GetPeers") {
+				getPeers = append(getPeers, in)
+			}
+		})
+		for _, gp := range getPeers {
+			c.Examined++
+			c.Decide(wlockedAt(gp, mtx), r, "updatePeerCounts/membership-read-under-lock", x.Pos(gp), "GetPeers is called inside the critical section that stores the count",
+				"the peer list is read before the factory mutex is taken: overlapping membership notifications (the peer service starts each callback in its own goroutine) can store their snapshots in the opposite order, leaving goals divided by a stale cluster size")
+		}
 	}
 	c.Min("C13.goal-shape", 2)
 	// peerCount stores
@@ -530,6 +579,12 @@ func c13(x *Ctx) {
 					ok = len(r.Hits) == 0
 				}
 			}
+		}
+		if !ok {
+			// guarded by a comparison of the stored value itself (`if n > 0 { s.peerCount = n }`)
+			as := &eng.Assume{Bool: func(v ssa.Value) eng.Tri { return eng.EvalRel(v, []eng.RelFact{eng.LessThanOneFact(st.Val)}) }}
+			r := eng.ReachableSinks(w.Fn, as, nil, func(in ssa.Instruction) bool { return in == ssa.Instruction(st) })
+			ok = len(r.Hits) == 0
 		}
 		c.Decide(ok, rPC, BaseName(w.Fn)+"/peerCount", x.Pos(st), "peerCount stored from a positive value", "peerCount can be stored as 0 (division by zero in updatePeerCounts) or from something other than the number of peers")
 	}
